@@ -1001,7 +1001,7 @@ def correspond(ctx):
     try:
         chk = Checker(ctx, rec)
         if ctx.tier == "quick":
-            battery(ctx, chk, 700, 480)
+            battery(ctx, chk, 520, 360)
         else:
             battery(ctx, chk, 6000, 4000)
         shared_binder_stream(ctx, rec)
